@@ -7,6 +7,7 @@ import (
 	"fmt"
 	"os"
 	"runtime"
+	"strings"
 	"time"
 
 	"verif/env"
@@ -20,6 +21,10 @@ import (
 // not an oracle (a loaded machine can starve a process for a long time), so such a run is inconclusive and is
 // only counted, never reported as a violation.
 var Timeouts int
+
+// Abandoned is set when an execution neither completed nor came to rest: later scenarios would not start from a clean
+// slate, so the caller must stop the pass.
+var Abandoned bool
 
 // Conformed counts the real executions whose complete output tuple (obs.Project) was found among the tuples of
 // the exhaustively explored terminal states of the same scenario; Compared counts the scenarios for which such a
@@ -44,8 +49,9 @@ func (s *Scenario) RunReal(runs int) (done int, violation string) {
 	for i := 0; i < runs; i++ {
 		runtime.GOMAXPROCS(procs[i%len(procs)])
 		env.Reset()
+		base := runtime.NumGoroutine()
 		s.Root()
-		deadline := time.Now().Add(10 * time.Second)
+		deadline := time.Now().Add(30 * time.Second)
 		for {
 			o := env.Snapshot()
 			complete := true
@@ -54,8 +60,14 @@ func (s *Scenario) RunReal(runs int) (done int, violation string) {
 					complete = false
 				}
 			}
+			if complete && !quiescent(base) {
+				// the markers are there but some goroutine of the scenario can still run (it may be about to log, or
+				// be starved by a busy machine): the oracle speaks about terminal states, so it is applied only once
+				// every other goroutine has finished or is blocked for good. This is read off the goroutines'
+				// states, not off a clock.
+				complete = false
+			}
 			if complete {
-				time.Sleep(20 * time.Microsecond) // let the last log entries of other goroutines land
 				o = env.Snapshot()
 				if m := s.Check(o); m != "" {
 					return done, fmt.Sprintf("%s (real runtime, run %d, GOMAXPROCS %d)", m, i, procs[i%len(procs)])
@@ -71,10 +83,62 @@ func (s *Scenario) RunReal(runs int) (done int, violation string) {
 			}
 			if time.Now().After(deadline) {
 				Timeouts++
+				// goroutines of this run that can still run would write into the logs of the next scenario: wait for them to
+				// settle; if they do not, the whole pass is abandoned (inconclusive), never turned into a verdict
+				for w := time.Now().Add(60 * time.Second); !quiescent(0); time.Sleep(time.Millisecond) {
+					if time.Now().After(w) {
+						Abandoned = true
+						break
+					}
+				}
 				return done, ""
 			}
 			time.Sleep(50 * time.Microsecond)
 		}
 	}
 	return done, ""
+}
+
+var stackBuf = make([]byte, 1<<16)
+
+// quiescent reports whether nothing but the calling goroutine can run: either the number of goroutines is back to
+// what it was before the scenario started, or every other goroutine is parked in a channel operation, a select or a
+// sync primitive (a sleeping goroutine will wake up by itself and does not count as parked).
+func quiescent(base int) bool {
+	if runtime.NumGoroutine() <= base {
+		return true
+	}
+	var n int
+	for {
+		n = runtime.Stack(stackBuf, true)
+		if n < len(stackBuf) {
+			break
+		}
+		stackBuf = make([]byte, 2*len(stackBuf))
+	}
+	first := true
+	for _, line := range strings.Split(string(stackBuf[:n]), "\n") {
+		if !strings.HasPrefix(line, "goroutine ") {
+			continue
+		}
+		i, j := strings.IndexByte(line, '['), strings.LastIndexByte(line, ']')
+		if i < 0 || j < i {
+			return false
+		}
+		if first { // the caller itself
+			first = false
+			continue
+		}
+		state := line[i+1 : j]
+		if k := strings.IndexByte(state, ','); k >= 0 {
+			state = state[:k]
+		}
+		switch state {
+		case "chan receive", "chan send", "select", "chan receive (nil chan)", "chan send (nil chan)", "select (no cases)",
+			"sync.WaitGroup.Wait", "semacquire", "sync.Mutex.Lock", "sync.RWMutex.RLock", "sync.RWMutex.Lock", "sync.Cond.Wait":
+		default:
+			return false
+		}
+	}
+	return true
 }
